@@ -39,6 +39,7 @@ def run(ctx: Context) -> None:
     ctx.rule(c08.r4_validation)
     ctx.rule(c08.r2_no_state)
     ctx.rule(c08.r3_weighted_sum)
+    ctx.rule(dtype_rule)
 
 
 # ---------------------------------------------------------------------------------------------- R1
@@ -497,3 +498,13 @@ def r4_word_packing(ctx: Context) -> None:
               "the packing radix depends on the alphabet size (or the alphabet is validated to be smaller than the radix)",
               f"words are packed in base {src(radix)} while symbols run up to nb_values, which defaults to (T-1)/2 and is not validated below {src(radix)}: "
               "different words collide for >= 10 symbols (e.g. symbols (1,12) and (2,2) both pack to 22), so entropies and the loss are wrong", f, ks[0])
+
+
+def dtype_rule(ctx: Context) -> None:
+    """Results must not be stored into arrays that inherit the dtype of caller-supplied data (integer input would truncate them)."""
+    from ..util import dtype_inheritance_sites
+    funcs = [f for f in ctx.prog.all_functions() if f.module.name.startswith(('black_it.loss_functions',))]
+    for f, node, what in dtype_inheritance_sites(ctx.prog, funcs):
+        ctx.fail("R6.dtype", f"{f.qualname.split(':')[1]}:inherited-dtype:{' '.join(src(node).split())[:50]}",
+                 f"{what}: for integer or lower-precision input the value is silently truncated / rounded on assignment, so the result is no longer what the definition gives", f, node)
+    ctx.ok("R6.dtype", "c07:scanned", f"{len(funcs)} functions: no computed value is stored into an array of inherited dtype")
